@@ -64,9 +64,17 @@ func VerifC20_ShutdownDrains() {
 		WithWorkerCount(workers).WithQueueLength(queue).Build()
 	served := make(chan error, 1)
 	go func() { served <- srv.Serve() }()
-	verifBlockUntil(func() bool { return len(b.subs) == len(subjects) })
-
-	before := 1 + verifChoice(verifBound())
+	// Stop may be called at ANY time after Serve was started - also before the Serve goroutine has executed its
+	// first statement (go srv.Serve() directly followed by Stop, a signal handler racing start-up): the quit
+	// channel is a rendezvous, so the stop request must not be lost
+	early := verifChoice(2) == 1
+	before := 0
+	if early {
+		verifReach("stop-races-startup")
+	} else {
+		verifBlockUntil(func() bool { return len(b.subs) == len(subjects) })
+		before = 1 + verifChoice(verifBound())
+	}
 	replies := []string{"r0", "r1", "r2", "r3"}
 	for i := 0; i < before; i++ {
 		b.inject(subjects[i%len(subjects)], replies[i], []byte{0, 0, 0, 1, byte(i)})
